@@ -163,6 +163,20 @@ def run_hybrid(case):
     r = _check_dict(h, d, exp, h["name"], labels)
     if r:
         return fail(r[0], r[1], r[2], labels)
+    # the dictionary is the form of the object AT THE TIME of to_dict: the object is written afterwards (one element of a
+    # numeric array field, put back at the end) and the rebuilt object must still equal the value the dictionary was taken of
+    undo = None
+    if case.get("via_buffer"):
+        for f_ in h["fields"]:
+            if f_["t"]["k"] == "array":
+                arr_ = sut(lambda: getattr(obj, hybgen.pyname(h, f_["n"])))
+                if not is_raised(arr_) and getattr(arr_, "size", 0) > 0:
+                    idx_ = tuple(0 for _ in arr_.shape)
+                    old_ = arr_[idx_].copy()
+                    arr_[idx_] = old_ + 1 if old_ == old_ and abs(float(old_)) < 100 else 0
+                    undo = (arr_, idx_, old_)
+                    labels.add("object_written_after_to_dict")
+                    break
     ctx = xo.ContextCpu() if case.get("other_ctx") else None
     if case.get("dirty"):
         # rebuilt on memory that was used before (defaults must be written, not assumed)
@@ -191,6 +205,8 @@ def run_hybrid(case):
         return fail("to_dict_raised", f"second to_dict: {d2}", d2.key, labels)
     if _canon(d2) != _canon(d):
         return fail("dict_not_fixpoint", f"to_dict of the rebuilt object differs: {_canon(d)[:300]} vs {_canon(d2)[:300]}", "", labels)
+    if undo is not None:
+        undo[0][undo[1]] = undo[2]
     # the original is untouched by all of this
     g3 = sut(lambda: _nz(spec, hybgen.hwalk(obj, hn)))
     if is_raised(g3) or tg.first_diff(spec, exp, g3):
